@@ -348,7 +348,9 @@ def client_workload(part, tier):
 # text shapes a password / user name can legally have in a configuration file or as an argument;
 # {c} is the canary (hex text, so that every shape stays one config-file line)
 SECRET_SHAPES = ['{c}', '%{c}', '{c}%', 'pw-%({c})s', '%%{c}', '${{{c}}}', '{c} ; x', '{c}=y', '"{c}"',
-                 '{c}\\', ' {c} ', '%s{c}', '{{0}}{c}', '{c}#frag']
+                 '{c}\\', ' {c} ', '%s{c}', '{{0}}{c}', '{c}#frag',
+                 # the canary AFTER characters a configuration reader may take for a separator or comment
+                 'Pw0 #{c}', 'Pw0 ;{c}', 'x ; {c}', 'x:{c}', 'x={c}', 'x,{c}', '[{c}]', 'x {c}']
 
 
 def config_workload(part, tier):
